@@ -789,7 +789,30 @@ def _prep_items(items, f):
 
 
 def delete(a, obj, axis=None):
-    raise Unsupported("np.delete (use the contract-level enumeration model)")
+    """np.delete(a, obj, axis): the entries of `a` along `axis` whose index is not in `obj`, in ascending index
+    order.  `obj` must carry an enumeration of its complement (meta['rov'](n) -> (count, b -> index)): the
+    strictly increasing enumeration of range(n) minus obj (list lemma A7)."""
+    a = asarray(a)
+    if a.ndim != 1 and axis is None:
+        raise Unsupported("np.delete without axis on a matrix")
+    axis = 0 if axis is None else axis % a.ndim
+    meta = getattr(obj, "meta", None)
+    if isinstance(obj, (list, tuple)) and not obj:
+        return a.copy()
+    if not meta or "rov" not in meta:
+        raise Unsupported("np.delete with an index list that has no complement enumeration")
+    n = a.extent(axis)
+    count, enum = meta["rov"](n)
+    f = a.snapshot_fn()
+    ax = a.axes[axis]
+    axes = list(a.axes)
+    axes[axis] = (count,)
+
+    def fn(idx):
+        o = list(idx)
+        o[axis] = split_index(enum(idx[axis][0]), ax)
+        return f(tuple(o))
+    return Arr(tuple(axes), fn, a.kind)
 
 
 # ----------------------------------------------------------------------------------
@@ -910,8 +933,10 @@ def getitem(a, key):
             def mp(idx, pos=pos, nfa=nfa, iaf=iaf, ax=ax, n=n):
                 v = iaf(tuple(idx[pos:pos + nfa]))
                 v = sym.to_int(v) if not is_int(v) else v
-                if not (is_pyint(v) and v >= 0):
-                    v = ite(zi(v) < 0, sym.add(v, n), v) if not is_pyint(v) else v + n
+                if is_pyint(v):
+                    v = v if v >= 0 else sym.add(v, n)
+                elif not cur().is_valid(zi(v) >= 0):
+                    v = ite(zi(v) < 0, sym.add(v, n), v)
                 return split_index(v, ax)
             maps.append(mp)
             # bounds of every index element
@@ -1188,36 +1213,72 @@ def _depends(e, ids):
 
 def factor_out(e, bvars):
     """real expression -> (independent factor, dependent part): pulls multiplicative factors that do not
-    mention the bound variables out of a summand (sum_t c*f(t) = c * sum_t f(t))."""
+    mention the bound variables out of a summand (sum_t c*f(t) = c * sum_t f(t)); common independent factors of
+    the terms of a sum are pulled out as well."""
     ids = {v.get_id() for v in bvars}
-    e = z3.simplify(e)
-    indep = []
-    dep = []
 
-    def split(x):
+    def fac(x):
+        """-> (list of independent symbolic factors, dependent expression or None)"""
+        if z3.is_rational_value(x) or z3.is_int_value(x):
+            return [], x
         if not _depends(x, ids):
-            indep.append(x)
-        elif z3.is_mul(x):
+            return [x], None
+        if z3.is_mul(x):
+            ind, dep = [], None
             for ch in x.children():
-                split(ch)
-        elif z3.is_div(x) and not _depends(x.arg(1), ids):
-            indep.append(1 / x.arg(1))
-            split(x.arg(0))
-        elif z3.is_app(x) and x.decl().kind() == z3.Z3_OP_UMINUS:
-            indep.append(z3.RealVal(-1))
-            split(x.arg(0))
-        else:
-            dep.append(x)
-    split(e)
+                i2, d2 = fac(ch)
+                ind += i2
+                if d2 is not None:
+                    dep = d2 if dep is None else dep * d2
+            return ind, dep
+        if z3.is_div(x) and not _depends(x.arg(1), ids):
+            i2, d2 = fac(x.arg(0))
+            return i2 + [1 / x.arg(1)], d2
+        if z3.is_app(x) and x.decl().kind() == z3.Z3_OP_UMINUS:
+            i2, d2 = fac(x.arg(0))
+            return i2, (-d2 if d2 is not None else z3.RealVal(-1))
+        if z3.is_add(x) or z3.is_sub(x):
+            parts = [fac(ch) for ch in x.children()]
+            keys = [[z3.simplify(f).sexpr() for f in p[0]] for p in parts]
+            common = list(keys[0])
+            for ks in keys[1:]:
+                rest = list(ks)
+                nc = []
+                for k_ in common:
+                    if k_ in rest:
+                        rest.remove(k_)
+                        nc.append(k_)
+                common = nc
+            ind = []
+            acc = None
+            for j, (p, ks) in enumerate(zip(parts, keys)):
+                need = list(common)
+                d = p[1] if p[1] is not None else z3.RealVal(1)
+                for f, k_ in zip(p[0], ks):
+                    if k_ in need:
+                        need.remove(k_)
+                        if j == 0:
+                            ind.append(f)
+                    else:
+                        d = d * f
+                if acc is None:
+                    acc = d
+                elif z3.is_sub(x):
+                    acc = acc - d
+                else:
+                    acc = acc + d
+            return ind, acc
+        return [], x
+    ind, dep = fac(e)
     fi = z3.RealVal(1)
-    for x in indep:
+    for x in ind:
         fi = fi * x
-    if not dep:
+    if dep is None:
         return z3.simplify(fi), None
-    fd = dep[0]
-    for x in dep[1:]:
-        fd = fd * x
-    return z3.simplify(fi), z3.simplify(fd)
+    dep = z3.simplify(dep)
+    if z3.is_rational_value(dep):
+        return z3.simplify(fi * dep), None
+    return z3.simplify(fi), dep
 
 
 class SumInfo:
@@ -1260,18 +1321,42 @@ def make_sum(extents, summand):
     ovars = [v for vs in outer for v in vs]
     exts = tuple(zi(n).sexpr() for n in extents)
 
+    bids = {v.get_id() for v in bvars}
+
+    def free_consts(exprs):
+        out = []
+        seen = set()
+        for e in exprs:
+            st = [e]
+            while st:
+                x = st.pop()
+                if x.get_id() in seen:
+                    continue
+                seen.add(x.get_id())
+                if z3.is_const(x) and x.decl().kind() == z3.Z3_OP_UNINTERPRETED and x.get_id() not in bids \
+                        and x.sort() in (z3.IntSort(), z3.RealSort(), z3.BoolSort()):
+                    out.append(x)
+                    continue
+                st.extend(reversed(x.children()))
+        return out
+
     def mk(expr, sort, tag):
-        key = ("sum", exts, tag, z3.simplify(expr).sexpr(), tuple(v.sexpr() for v in ovars))
-        got = c.memo.get(key)
-        if got is None:
+        """the sum as an uninterpreted function of the free constants of its summand (so that sums over the same
+        template at provably equal parameters are equal by congruence)"""
+        e = z3.simplify(expr)
+        ext_e = [zi(n) if not is_pyint(n) else z3.IntVal(n) for n in extents]
+        free = free_consts([e] + ext_e)
+        holes = [z3.Const(f"hole!{j}", x.sort()) for j, x in enumerate(free)]
+        pairs = list(zip(free, holes))
+        tmpl = z3.substitute(e, *pairs) if pairs else e
+        ext_t = tuple((z3.substitute(x, *pairs) if pairs else x).sexpr() for x in ext_e)
+        key = ("sum", tag, tmpl.sexpr(), ext_t, tuple(str(x.sort()) for x in free))
+        decl = c.memo.get(key)
+        if decl is None:
             nm = c.fresh_name("SUM" + tag)
-            if ovars:
-                fdecl = z3.Function(nm, *([z3.IntSort()] * len(ovars)), sort)
-                got = fdecl(*ovars)
-            else:
-                got = z3.Const(nm, sort)
-            c.memo[key] = got
-        return got
+            decl = z3.Function(nm, *[x.sort() for x in free], sort) if free else z3.Const(nm, sort)
+            c.memo[key] = decl
+        return decl(*free) if free else decl
     sums = c.memo.setdefault("sums", {})
     if k in ("int", "bool"):
         body = sym.b2i(body)
@@ -1300,9 +1385,22 @@ def make_sum(extents, summand):
         sums[v.sexpr()] = SumInfo(extents, unit_summand, (v,))
         return F(nan, z3.simplify(coef * v))
     body = sym.toC(body)
+    nan = nanflag(body.nan)
+    cre, dre = factor_out(body.re, bvars)
+    cim, dim_ = factor_out(body.im, bvars)
+    if dre is not None and dim_ is not None and z3.simplify(cre).sexpr() == z3.simplify(cim).sexpr() \
+            and not z3.is_rational_value(z3.simplify(cre)):
+        re = mk(dre, z3.RealSort(), "re")
+        im = mk(dim_, z3.RealSort(), "im")
+
+        def unit_summand(t, summand=summand, coef=cre):
+            x = sym.toC(summand(t))
+            return C(x.nan, x.re / coef, x.im / coef)
+        sums[re.sexpr()] = SumInfo(extents, unit_summand, (re, im))
+        sums[im.sexpr()] = SumInfo(extents, unit_summand, (re, im))
+        return C(nan, z3.simplify(cre * re), z3.simplify(cre * im))
     re = mk(body.re, z3.RealSort(), "re")
     im = mk(body.im, z3.RealSort(), "im")
-    nan = nanflag(body.nan)
     sums[re.sexpr()] = SumInfo(extents, summand, (re, im))
     sums[im.sexpr()] = SumInfo(extents, summand, (re, im))
     return C(nan, re, im)
@@ -1405,9 +1503,15 @@ def mean(a, axis=None):
     return divide(s, n)
 
 
-def std(a, axis=None):
-    """population standard deviation (ddof = 0), as np.std's default."""
+def std(a, axis=None, ddof=0):
+    """standard deviation with `ddof` delta degrees of freedom (np.std's default 0 = population formula)."""
     a = asarray(a)
+    if not (is_pyint(ddof) and ddof == 0):
+        m = mean(a, axis)
+        d = subtract(a, expand_dims(m, axis % a.ndim) if (axis is not None and isinstance(m, Arr)) else m)
+        sq = elementwise(lambda x: sym.mul(sym.abs_(x), sym.abs_(x)), d, kind="float")
+        n = prod(tuple(x for ax in a.axes for x in ax)) if axis is None else a.extent(axis % a.ndim)
+        return sqrt(divide(sum_(sq, axis), sym.sub(n, ddof)))
     m = mean(a, axis)
     if axis is None:
         d = subtract(a, m)
